@@ -403,6 +403,9 @@ def check(repo, rep, tier):
     from ..lints import r_unbound_reads
     r_unbound_reads(repo, rep, 'R19.6', repo.py_files('depccg/printer'), 'the format cannot be written at all')
     rp.r_retrieve_tree(repo, rep, 'R19.6', {'labels'})
+    from ..lints import r_templates_constant
+    r_templates_constant(repo, rep, 'R19.6', repo.py_files('depccg/printer'),
+                         'a word that contains a brace makes str.format raise (KeyError / IndexError / ValueError) and the whole batch is not rendered')
     from .c07 import r_conll_heads
     r_conll_heads(repo, rep, 'R19.6')
     nf, ns = r_feature_and_shape(repo, rep)
